@@ -120,6 +120,24 @@ def generate(seed, tier="quick"):
         if res == "unspec":
             continue  # never emit a call whose outcome is outside the documented semantics
         ops.append(op)
+    if dw.ref.edges and o.random() < 0.35:
+        # trainable block: compartment *and* synaptic parameters trainable at the same time, then deletion through a view
+        # (a view has to sort the trainables by what their indices refer to), then more of the same
+        from ..program import gen_edge_view, settable_keys
+
+        for _ in range(o.randint(2, 4)):
+            if o.random() < 0.5:
+                key = o.choice(dw.ref.edge_columns())
+                syn = [s_["name"] for s_ in dw.ref.syns if key in s_["params"] or key in s_["states"]][0]
+                op = {"op": "make_trainable", "view": gen_edge_view(o, dw.ref, syn), "key": key, "init": o.choice([None, "float"]), "seed": o.randrange(1 << 30)}
+            else:
+                op = {"op": "make_trainable", "view": gen_node_view(o, dw.ref), "key": o.choice(settable_keys(dw.ref)), "init": o.choice([None, "float"]), "seed": o.randrange(1 << 30)}
+            if dw.dry_apply(op) != "unspec":
+                ops.append(op)
+        for _ in range(o.randint(1, 2)):
+            op = {"op": "delete_trainables", "view": gen_node_view(o, dw.ref) if o.random() < 0.7 else gen_edge_view(o, dw.ref)}
+            if dw.dry_apply(op) != "unspec":
+                ops.append(op)
     # fault-free epilogue: a recording if none exists, then one plain run
     if not dw.ref.recordings:
         op = {"op": "record", "view": [["select_nodes", {"t": "int", "v": o.randrange(64)}]], "state": "v"}
